@@ -166,6 +166,21 @@ fn strat(tier: Tier) -> impl Strategy<Value = Case> {
 pub fn run(ctx: &Ctx, rep: &Report) -> Meta {
     let am = all_mask_cases(ctx.seed, ctx.tier.pick(6, 10));
     par_items(ctx, rep, "all-masks", &am, |c| check(rep, "all-masks", c));
+    let sweep: Vec<Case> = (7..=ctx.tier.pick(72usize, 200usize))
+        .map(|l| Case {
+            suite: if l % 2 == 0 { SuiteId::Sha256 } else { SuiteId::Shake256 },
+            key: KeySpec { fixture: false, ikm: BSpec { len: 32, class: 0, seed: (ctx.seed as u32).wrapping_add(l as u32) }, key_info: OptBytes::None, key_dst: OptBytes::None },
+            header: [OptBytes::None, OptBytes::Bytes(BSpec { len: 16, class: 0, seed: 1 })][l % 2].clone(),
+            ph: [OptBytes::Bytes(BSpec { len: 8, class: 0, seed: 2 }), OptBytes::None, OptBytes::Empty][l % 3].clone(),
+            msgs: MsgVec { items: (0..l).map(|j| BSpec { len: [4usize, 0, 33][j % 3], class: 0, seed: (l * 1000 + j) as u32 }).collect() },
+            all_masks: false,
+            mask_seed: (ctx.seed as u32).wrapping_mul(977).wrapping_add(l as u32),
+        })
+        .collect();
+    par_items(ctx, rep, "size-sweep", &sweep, |c| check(rep, "size-sweep", c));
+    if !rep.aborted() {
+        rep.exhaustive(format!("every message count L in 7..={} with the class masks", ctx.tier.pick(72, 200)));
+    }
     let tier = ctx.tier;
     run_cases(ctx, rep, "sampled-masks", ctx.tier.pick(48, 400), 100, || strat(tier), |c| check(rep, "sampled-masks", c));
     Meta {
